@@ -463,6 +463,14 @@ class Ctx:
         self.extra = {}
         self.workdir = os.path.join(BUILD, "work", pid)
         os.makedirs(self.workdir, exist_ok=True)
+        rd = os.path.join(ROOT, "replay")
+        if os.path.isdir(rd) and not replay:     # stale replay files of earlier runs of this property
+            for f in os.listdir(rd):
+                if f.startswith(pid + "-"):
+                    try:
+                        os.remove(os.path.join(rd, f))
+                    except OSError:
+                        pass
 
     # --- helpers for plugins
     def quick(self):
